@@ -184,6 +184,11 @@ def per_frame_refresh(ctx):
 def response_table(ctx):
     m = ctx.m
     f = 'COCSdoResponse'
+    # the table is written in terms of the handler functions: a handler that no longer exists as a function (inlined,
+    # renamed) is a vanished anchor (analysis broken), not a routing violation
+    m.need(f, 'COCSdoTransferFinalize', 'COCSdoUploadExpedited', 'COCSdoDownloadExpedited', 'COCSdoInitUploadSegmented',
+           'COCSdoUploadSegmented', 'COCSdoInitDownloadSegmented', 'COCSdoDownloadSegmented', 'COCSdoFinishDownloadSegmented',
+           'COCSdoAbort')
     T = dict((n, m.enum(n)) for n in ('CO_CSDO_TRANSFER_NONE', 'CO_CSDO_TRANSFER_UPLOAD', 'CO_CSDO_TRANSFER_DOWNLOAD',
                                       'CO_CSDO_TRANSFER_UPLOAD_SEGMENT', 'CO_CSDO_TRANSFER_DOWNLOAD_SEGMENT'))
     tbl = {}
@@ -414,7 +419,7 @@ def download_segment_template(ctx):
     for f in ('COCSdoInitDownloadSegmented', 'COCSdoDownloadSegmented'):
         m.need(f)
         for size in (300, 0x10000 + 14):
-            for r in (1, 2, 6, 7, 8, 9, 13, 14, 15, 21, 263):
+            for r in (range(1, 300) if getattr(ctx, 'tier', 'quick') == 'thorough' else (1, 2, 6, 7, 8, 9, 13, 14, 15, 21, 255, 256, 257, 262, 263)):
                 if r > size:
                     continue
                 inputs = {'csdo->Tfer.TBit': 0, 'csdo->Tfer.Size': size, 'csdo->Tfer.Buf_Idx': size - r,
